@@ -254,7 +254,7 @@ def register_map(spec):
     P = dict(self=Map)
     ALLOK = "all(implies(mm != None, wf(mm)) for mm in Map)"
     HAV = ['Map.maps', 'Map.handles', 'Map.parent', 'Map.key', 'ghost:alloc_Map']
-    spec.ghost_decls['alloc_Map'] = lambda X: None
+    spec.ghost_decls['alloc_Map'] = spec.alloc_havoc('Map')
 
     C(q + '__init__', params=P, props=['C11'], modifies=['self.maps', 'self.handles'],
       ensures={'empty': 'all(not (k in self.maps) for k in Str) and len(self.handles.maps) == 1 and '
